@@ -62,6 +62,44 @@ FIXTURES = [("TestFont.ufo", "compileTTF"), ("TestFont.ufo", "compileOTF"),
             ("CantarellAnchorPropagation.ufo", "compileTTF")]
 
 
+def gen_shared_options(rng, tier):
+    """Options that are OBJECTS (an ftConfig dict asking for GPOS compaction) shared by every
+    call of the child interpreter - first call, second call, after another function, inplace:
+    a call that leaves its mark on the caller's options changes the next call's output.  The
+    family has two disjoint 12 x 12 blocks of class kerning, which compaction really splits."""
+    n = 12
+    ufos = []
+    for weight in (400, 700):
+        names = ["g%03d" % i for i in range(4 * n)]
+        glyphs = [{"name": nm, "width": 500 + weight // 10, "unicodes": [0x100 + i],
+                   "contours": [[[50, 0, "line"], [50, 400 + i, "line"],
+                                 [300 + weight // 10, 400 + i, "line"], [300 + weight // 10, 0, "line"]]],
+                   "components": [], "anchors": []} for i, nm in enumerate(names)]
+        left, right = names[:2 * n], names[2 * n:]
+        groups, kerning = {}, []
+        for i in range(n):
+            groups["public.kern1.A%02d" % i] = [left[i]]
+            groups["public.kern1.B%02d" % i] = [left[n + i]]
+            groups["public.kern2.A%02d" % i] = [right[i]]
+            groups["public.kern2.B%02d" % i] = [right[n + i]]
+        for block in "AB":
+            for i in range(n):
+                for j in range(n):
+                    kerning.append(["public.kern1.%s%02d" % (block, i), "public.kern2.%s%02d" % (block, j),
+                                    -(10 + 3 * i + 5 * j) - weight // 100])
+        ufos.append({"glyphs": glyphs, "groups": groups, "kerning": kerning, "features": "",
+                     "lib": {}, "glyphOrder": names,
+                     "info": {"unitsPerEm": 1000, "familyName": "T", "styleName": "W%d" % weight,
+                              "ascender": 800, "descender": -200, "xHeight": 500, "capHeight": 700}})
+    ds = {"axes": [{"name": "Weight", "tag": "wght", "min": 400, "default": 400, "max": 700}],
+          "ufos": ufos, "sources": [{"ufo": 0, "location": {"Weight": 400}, "name": "m400"},
+                                    {"ufo": 1, "location": {"Weight": 700}, "name": "m700"}]}
+    return {"kind": "ds", "shared_options": True, "ds": ds,
+            "func": rng.choice(["compileVariableTTF", "compileVariableCFF2"]),
+            "opts": {"ftConfig": {"fontTools.otlLib.optimize.gpos:COMPRESSION_LEVEL": 9}},
+            "other_func": "compileVariableTTF", "tier": tier}
+
+
 def gen(rng, idx, tier):
     if idx < len(FIXTURES):
         fx, func = FIXTURES[idx]
@@ -69,6 +107,8 @@ def gen(rng, idx, tier):
         return {"kind": "fixture", "fixture": fx, "func": func, "opts": {}, "tier": tier,
                 "other_func": ("compileOTF" if func == "compileTTF" else "compileTTF") if static
                 else "compileTTF"}
+    if idx == len(FIXTURES):
+        return gen_shared_options(rng, tier)
     r = rng.random()
     if r < 0.3:
         ds = masters.family(rng, n_glyphs=rng.choice([4, 6]), missing_glyph=False,
@@ -291,6 +331,8 @@ def run(case):
         bump("cases_compared")
     if case.get("per_lib"):
         bump("cases_partial_glyph_order")
+    if case.get("shared_options"):
+        bump("cases_shared_option_objects_with_gpos_compaction")
     if case["kind"] == "ds":
         bump("cases_designspace")
     if case["kind"] == "outline" and any(g["name"] == "hookcomb_barcomb" for g in case["ufo"]["glyphs"]):
